@@ -169,6 +169,26 @@ class Opaque:
         return "<opaque %s>" % self.name
 
 
+class Coroutine:
+    """The object a call of an `async def` function returns when it is not awaited on the spot: nothing of the body
+    has run yet; `await` runs it (once)."""
+
+    def __init__(self, fn, args, kwargs):
+        self.fn, self.args, self.kwargs = fn, list(args), dict(kwargs)
+        self.state = "created"
+
+
+class Task:
+    """asyncio.ensure_future(coro) / create_task(coro): the coroutine runs when the creating task next awaits;
+    the model runs it at the `await` of the task itself and gives up (Undecided) if anything else is awaited while
+    the task is still pending.  The outcome (result or exception) is kept and handed to every later `await`."""
+
+    def __init__(self, coro):
+        self.coro = coro
+        self.state = "pending"      # pending | result | exception
+        self.value = None
+
+
 class GenResult:
     """Eagerly collected generator."""
 
